@@ -457,7 +457,7 @@ def p_call_parse_args(s, allow_genexp=True):
 def rule_ITEMSEQ(ctx):
     r = Rule('C43-ITEMSEQ', 'item lists with * / ** items (call and class-header arguments, set / dict displays): the acceptor automaton of the parser function, explored completely over '
              '(abstract state of its locals x item kinds seen) by the checker\'s evaluator on a model scanner, accepts every order of item kinds the running interpreter compiles, '
-             'and leaves only through the scanner\'s error', floor=1500)
+             'and leaves only through the scanner\'s error', floor=900)
     sites, fns = _sites(ctx)
     total = 0
     reported_by_function = {}
